@@ -13,6 +13,8 @@ re-emits from the live `pynguin/analyses/module.py` (`Generated/C27Visibility.le
 * `nothing_foreign`, `ignored_excluded`, `under_test_not_skipped`, `C27_sound`: whatever is under test is
   defined in the module under test, occurs in the project, has an eligible name and is not ignored —
   for every project (`Env`), configuration and traversal depth.
+* `method_defined_in_own_class`: a method under test is defined in (resolved by object identity to) the class
+  of the module under test it is listed under — inherited members of same-named foreign bases are not.
 * `C27_complete`: every eligible, non-ignored function / constructor / method of the namespace of the
   module under test is under test.
 
@@ -95,6 +97,30 @@ theorem nothing_foreign {accs : List Acc} (h : underTest P cfg env root fuel = s
     obtain ⟨vn, cn, -, -, -, -, h2, rfl⟩ := hav
     have : f.module = root := by subst hatt; simpa using h2
     exact ⟨this, hmd⟩
+
+/-- **method_defined_in_own_class** — a method under test is *defined in* a class of the module under test:
+the class object that `get_class_that_defined_method` resolves for it (`Meth.definer`, an object identity) is
+the very class it is listed under, and that class was defined in the module under test. In particular a method
+a class of the module under test merely inherits from a class of another module — even from a base class with
+the same name (`class Handler(base.Handler)`) — is never under test. -/
+theorem method_defined_in_own_class {accs : List Acc} (h : underTest P cfg env root fuel = some accs) :
+    ∀ c m, Acc.meth c m ∈ accs → m.definer = some c.id ∧ c.module = root ∧ m ∈ c.methods := by
+  intro c m ha
+  have hf := nothing_foreign P cfg env root fuel h _ ha
+  obtain ⟨vs, v, hvs, hv, hav⟩ := mem_underTest P cfg env root fuel h ha
+  cases v with
+  | cls c' att =>
+    simp only [analyseVisit, mem_analyseClass] at hav
+    obtain ⟨-, (⟨-, -, h3⟩ | ⟨m', hm', hmm⟩)⟩ := hav
+    · split at h3 <;> cases h3
+    · rw [mem_analyseMethod] at hmm
+      obtain ⟨-, -, -, hd, -, -, -, heq⟩ := hmm
+      cases heq
+      refine ⟨by simpa [Meth.definedIn] using hd, hf.1, hm'⟩
+  | fn f att =>
+    simp only [analyseVisit, mem_analyseFunction] at hav
+    obtain ⟨vn, cn, -, -, -, -, -, h3⟩ := hav
+    cases h3
 
 /-- **ignored_excluded** — nothing that the configuration (or the built-in blacklists) ignores is under
 test: the module of every accessible under test is not ignored, and the qualified name of every function /
@@ -196,7 +222,7 @@ theorem C27_complete {accs : List Acc} (h : underTest P cfg env root fuel = some
         (c.isEnum && c.enumNames == 0) = false →
           (c.isAbstract = false → (if c.isEnum then Acc.enum c else Acc.ctor c) ∈ accs) ∧
           (∀ m ∈ c.methods, P.isAnnotate m.name = false → P.isConstructor m.name = false →
-            m.definedHere = true → methodListed P cfg m.qualified = false → m.isCoroutine = false →
+            m.definedIn c = true → methodListed P cfg m.qualified = false → m.isCoroutine = false →
             P.shouldSkip cfg.visibility (lastSegment m.name) true = false → Acc.meth c m ∈ accs)) := by
   unfold underTest at h
   cases hv : visits P cfg env root fuel with
@@ -257,15 +283,15 @@ with `m`, `_p`, `_My_C__q` (= `__q`), an ignored method `ign`, an inherited meth
 private def exEnv : Env :=
   { classes :=
       [{ id := 0, module := ['r'], qualname := ['M', 'y', '_', 'C'], isAbstract := false, isEnum := false, enumNames := 0,
-         methods := [⟨['m'], ['r', '.', 'M', 'y', '_', 'C', '.', 'm'], true, false⟩,
-                     ⟨['_', 'p'], ['r', '.', 'M', 'y', '_', 'C', '.', '_', 'p'], true, false⟩,
-                     ⟨['_', 'M', 'y', '_', 'C', '_', '_', 'q'], ['r', '.', 'M', 'y', '_', 'C', '.', '_', '_', 'q'], true, false⟩,
-                     ⟨['i', 'g', 'n'], ['r', '.', 'M', 'y', '_', 'C', '.', 'i', 'g', 'n'], true, false⟩,
-                     ⟨['b', 'm'], ['d', '.', 'B', '.', 'b', 'm'], false, false⟩,
-                     ⟨['_', '_', 'i', 'n', 'i', 't', '_', '_'], ['r', '.', 'M', 'y', '_', 'C', '.', '_', '_', 'i', 'n', 'i', 't', '_', '_'], true, false⟩],
+         methods := [⟨['m'], ['r', '.', 'M', 'y', '_', 'C', '.', 'm'], some 0, false⟩,
+                     ⟨['_', 'p'], ['r', '.', 'M', 'y', '_', 'C', '.', '_', 'p'], some 0, false⟩,
+                     ⟨['_', 'M', 'y', '_', 'C', '_', '_', 'q'], ['r', '.', 'M', 'y', '_', 'C', '.', '_', '_', 'q'], some 0, false⟩,
+                     ⟨['i', 'g', 'n'], ['r', '.', 'M', 'y', '_', 'C', '.', 'i', 'g', 'n'], some 0, false⟩,
+                     ⟨['b', 'm'], ['d', '.', 'B', '.', 'b', 'm'], some 1, false⟩,
+                     ⟨['_', '_', 'i', 'n', 'i', 't', '_', '_'], ['r', '.', 'M', 'y', '_', 'C', '.', '_', '_', 'i', 'n', 'i', 't', '_', '_'], some 0, false⟩],
          bases := [1] },
        { id := 1, module := ['d'], qualname := ['B'], isAbstract := false, isEnum := false, enumNames := 0,
-         methods := [⟨['b', 'm'], ['d', '.', 'B', '.', 'b', 'm'], true, false⟩], bases := [] }],
+         methods := [⟨['b', 'm'], ['d', '.', 'B', '.', 'b', 'm'], some 1, false⟩], bases := [] }],
     modules :=
       [{ name := ['r'], classes := [0, 1],
          funcs := [⟨0, ['r'], ['f'], false, false, none⟩, ⟨1, ['r'], ['_', 'g'], false, false, none⟩,
@@ -293,6 +319,20 @@ example : names (underTest preds (exCfg .PROTECTED) exEnv ['r'] 10)
 example : names (underTest preds (exCfg .ALL) exEnv ['r'] 10)
     = some [['M', 'y', '_', 'C'], ['m'], ['_', 'p'], ['_', 'M', 'y', '_', 'C', '_', '_', 'q'], ['f'], ['_', 'g'],
             ['_', '_', 'h'], ['_', 'l', 'a', 'm']] := by decide +kernel
+/-- a class of the module under test named like its foreign base (`class B(d.B)` in `r`): the inherited `bm`
+is resolved to the class object `d.B` (id 1), not to `r.B` (id 2), and is not under test — only the constructor
+and the method written in `r` are. -/
+private def exSameName : Env :=
+  { classes :=
+      [{ id := 1, module := ['d'], qualname := ['B'], isAbstract := false, isEnum := false, enumNames := 0,
+         methods := [⟨['b', 'm'], ['d', '.', 'B', '.', 'b', 'm'], some 1, false⟩], bases := [] },
+       { id := 2, module := ['r'], qualname := ['B'], isAbstract := false, isEnum := false, enumNames := 0,
+         methods := [⟨['b', 'm'], ['d', '.', 'B', '.', 'b', 'm'], some 1, false⟩,
+                     ⟨['o', 'w', 'n'], ['r', '.', 'B', '.', 'o', 'w', 'n'], some 2, false⟩], bases := [1] }],
+    modules :=
+      [{ name := ['r'], classes := [2], funcs := [], submodules := [['d']] },
+       { name := ['d'], classes := [1], funcs := [], submodules := [] }] }
+example : names (underTest preds (exCfg .ALL) exSameName ['r'] 10) = some [['B'], ['o', 'w', 'n']] := by decide +kernel
 /-- the hypotheses of `C27_complete` hold on this instance -/
 example : moduleBlacklisted preds (exCfg .PUBLIC) ['r'] = false := by decide +kernel
 /-- an ignored module under test: nothing is under test -/
